@@ -189,7 +189,7 @@ func compareModel(rep *Report, pool *DriverPool, c interface{}, s Setting, datas
 		rep.Count("model:skipped-sampled-out")
 		return
 	}
-	if modelTier != "thorough" && total > 30000 && !(buildName == "asm" && VerifLevel() == 0) {
+	if modelTier != "thorough" && total > 30000 && (!(buildName == "asm" && VerifLevel() == 0) || total%3 != 0) {
 		// quick tier: the largest histories are compared on one target only
 		rep.Count("model:skipped-sampled-out")
 		return
